@@ -724,7 +724,8 @@ class Interp:
                 if not c: raise Violation('vk_assert failed: ' + s.cstr(st, args[1]))
                 s.stats['asserts_concrete'] += 1
                 return
-            good = s.zb(c) if (z3.is_bool(c) or c.size() == 1) else (c != 0)
+            good = z3.simplify(s.zb(c) if (z3.is_bool(c) or c.size() == 1) else (c != 0))
+            if z3.is_true(good): s.stats['asserts_trivial'] += 1; return
             if st.forced: st.pc.append(good); return     # already decided when this prefix was first explored
             bad = z3.Not(good)
             s.stats['asserts_symbolic'] += 1
